@@ -50,7 +50,17 @@ def filter_events(i0, cond, cterm, doc, entries=("filter", "data_filter", "test_
         e = blank(i0 + len(evs))
         e.update(cond=cterm, doc=dterm, entry=entry)
         with watch(objs=[cond], docs=[doc]) as w:
-            if entry == "filter":
+            if entry == "test":
+                # ConditionLike.test(datum) == filter([datum]).result[0] for a value-kind condition;
+                # KeyLike.test(single-item mapping) == filter(mapping).result[0]
+                if cterm.get("datum") == "key":
+                    datum = doc
+                else:
+                    datum = doc[0] if isinstance(doc, list) else next(iter(doc.values()))
+                    e["doc"] = enc_val([datum])
+                out, r = outcome_of(lambda: cond.test(datum))
+                fd = None
+            elif entry == "filter":
                 out, fd = outcome_of(lambda: cond.filter(doc))
             elif entry == "data_filter":
                 out, fd = outcome_of(lambda: valida.Data(doc).filter(cond))
@@ -59,7 +69,11 @@ def filter_events(i0, cond, cterm, doc, entries=("filter", "data_filter", "test_
         e["outcome"] = out
         e["writes"] = w.writes
         e["unchanged"] = bool(w.objs_unchanged and w.docs_unchanged)
-        if entry == "test_all":
+        if entry == "test":
+            e["op"] = "test_all"            # a one-item container: test(datum) is the conjunction over that item
+            if out == "ok":
+                e["result"] = [bool(r)]
+        elif entry == "test_all":
             e["op"] = "test_all"
             if out == "ok":
                 e["result"] = [bool(fd)]
@@ -128,7 +142,10 @@ def run(rep, tier, seed):
             if rec["datum"] == "index" and not isinstance(doc, list) and random.Random(len(events)).random() < 0.8:
                 continue
             try:
-                evs = filter_events(len(events) + 1, obj, cterm, doc)
+                ents = ("filter", "data_filter", "test_all")
+                if len(doc) == 1 and cterm.get("t") == "leaf" and (rec["datum"] == "value" or (rec["datum"] == "key" and isinstance(doc, dict))):
+                    ents = ents + ("test",)
+                evs = filter_events(len(events) + 1, obj, cterm, doc, entries=ents)
             except Unencodable:
                 rep.skipped_unencodable += 1
                 continue
